@@ -40,6 +40,56 @@ Theorem C20_ifver_code :
   forall b js back, In (b, js, back) ifver_table -> back = Some b.
 Proof. exact (conj ifver_table_complete ifver_code_roundtrip). Qed.
 
+(* ---- "exact inverses", the other direction: encode, then decode, over EVERY field value (finite domain:
+   4 x 16 x 2 x 2 resp. 4 x 4 x 2 x 8 values); the octet written is the positional one *)
+Theorem C20_esm_encode_decode : forall e, e_mode e < 4 -> e_type e < 16 ->
+  esm_of_byte (esm_to_byte e) = e /\ esm_to_byte e < 256 /\ esm_to_byte e = spec_esm_byte e.
+Proof. exact esm_encode_decode. Qed.
+Theorem C20_regdel_encode_decode : forall r, r_mc r < 4 -> r_sme r < 4 -> r_rsv r < 8 ->
+  regdel_of_byte (regdel_to_byte r) = r /\ regdel_to_byte r < 256 /\ regdel_to_byte r = spec_regdel_byte r.
+Proof. exact regdel_encode_decode. Qed.
+(* ... and of the running code: one row per field value, in octet order; the octet ReadByte returned is the
+   positional one and WriteByte of it (into a variable that held the complement) gives the fields back *)
+Theorem C20_esm_code_inverse :
+  map (fun r => esm_of4 (fst (fst r))) esm_enc_table = all_esm /\
+  (forall e, e_mode e < 4 -> e_type e < 16 -> In e all_esm) /\
+  forall f c back, In (f, c, back) esm_enc_table -> c = spec_esm_byte (esm_of4 f) /\ esm_of4 back = esm_of4 f.
+Proof. exact (conj esm_enc_table_complete (conj all_esm_spec esm_enc_code)). Qed.
+Theorem C20_regdel_code_inverse :
+  map (fun r => regdel_of4 (fst (fst r))) regdel_enc_table = all_regdel /\
+  (forall r, r_mc r < 4 -> r_sme r < 4 -> r_rsv r < 8 -> In r all_regdel) /\
+  forall f c back, In (f, c, back) regdel_enc_table -> c = spec_regdel_byte (regdel_of4 f) /\ regdel_of4 back = regdel_of4 f.
+Proof. exact (conj regdel_enc_table_complete (conj all_regdel_spec regdel_enc_code)). Qed.
+
+(* ---- receivers.  WriteByte / UnmarshalJSON are methods on a pointer; decoding INTO a variable that already
+   holds a value gives the same result as decoding into a fresh one: after any history of octets written into
+   one variable, the last octet is read back (model), and the running code does so for every octet written over
+   an all-ones, a zero and the complement value (complete table) *)
+Theorem C20_esm_receiver : forall e0 bs b, b < 256 ->
+  esm_write e0 b = spec_esm b /\ esm_to_byte (fold_left esm_write (bs ++ [b]) e0) = b.
+Proof. exact (fun e0 bs b Hb => conj (eq_trans (esm_write_any_receiver e0 b) (esm_model_is_spec b Hb)) (esm_write_history e0 bs b Hb)). Qed.
+Theorem C20_regdel_receiver : forall r0 bs b, b < 256 ->
+  regdel_write r0 b = spec_regdel b /\ regdel_to_byte (fold_left regdel_write (bs ++ [b]) r0) = b.
+Proof. exact (fun r0 bs b Hb => conj (eq_trans (regdel_write_any_receiver r0 b) (regdel_model_is_spec b Hb)) (regdel_write_history r0 bs b Hb)). Qed.
+Theorem C20_esm_code_receiver :
+  map (fun r => (fst (fst r), snd (fst r))) esm_reuse_table = flat_map (fun b => map (fun p => (p, b)) (reuse_priors b)) all256 /\
+  forall prior b after, In (prior, b, after) esm_reuse_table -> esm_of4 after = spec_esm b.
+Proof. exact (conj esm_reuse_table_complete esm_reuse_code). Qed.
+Theorem C20_regdel_code_receiver :
+  map (fun r => snd (fst r)) regdel_reuse_table = flat_map (fun b => [b; b; b]) all256 /\
+  forall prior b after, In (prior, b, after) regdel_reuse_table -> regdel_of4 after = spec_regdel b.
+Proof. exact (conj regdel_reuse_table_octets regdel_reuse_code). Qed.
+Theorem C20_ifver_receiver : forall v0 b, b < 256 -> ifver_unmarshal v0 (ifver_to_json b) = (b, true).
+Proof. exact ifver_unmarshal_any_receiver. Qed.
+Theorem C20_ifver_code_receiver :
+  map (fun r => (fst (fst r), snd (fst r))) ifver_reuse_table = flat_map (fun b => [(255, b); (255 - b, b); (15, b)]) all256 /\
+  forall v0 b back, In (v0, b, back) ifver_reuse_table -> back = Some b.
+Proof. exact (conj ifver_reuse_table_complete ifver_reuse_code). Qed.
+(* content: a WriteByte that ORs into its receiver passes every fresh-variable test and fails this *)
+Theorem C20_write_or_refuted :
+  exists e0 c, c < 256 /\ esm_to_byte (esm_write_or e0 c) <> c /\ esm_write_or (esm_of_byte 0) c = esm_of_byte c.
+Proof. exact esm_write_or_refuted. Qed.
+
 (* non-vacuity: a non-trivial octet exercises every field *)
 Example C20_esm_example : esm_of_byte 195 = {| e_mode := 3; e_type := 0; e_udhi := true; e_reply := true |}
   /\ nth_error esm_table 195 = Some (195, (3, 0, true, true), 195).
@@ -123,6 +173,24 @@ Theorem C20_time_domain_edge : forall t q : Z,
   (-864000 <= t + q * 9000 < 0 \/ 36525 * 864000 <= t + q * 9000 < 36526 * 864000) ->
   exists s, time_format (t, q) = Ok s /\ valid_abs_time s = false.
 Proof. exact time_domain_edge. Qed.
+
+(* Receivers: Time.From / Duration.From on a variable that already holds a value.  The variable afterwards and
+   the error class are those of a fresh variable: the value parsed, or the zero value after "" and after a
+   rejected string; so is every history of calls on one variable.  Without the first statement of either
+   method this is false (a reused Duration accumulates; a reused Time survives From("")). *)
+Theorem C20_time_receiver : forall (v0 : Z * Z) (ss : list (list N)) (s : list N),
+  time_from v0 s = match time_parse s with
+                   | Ok v => (v, Ok tt) | Err e => ((zero_instant, 0), Err e) | Panic => ((zero_instant, 0), Panic) end /\
+  fst (fold_left (fun v x => fst (time_from v x)) (ss ++ [s]) v0) = fst (fst (time_from v0 s)).
+Proof. exact (fun v0 ss s => conj (time_from_spec v0 s) (time_from_history v0 ss s)). Qed.
+Theorem C20_duration_receiver : forall (d0 : Z) (ss : list (list N)) (s : list N),
+  dur_from d0 s = match dur_parse s with Ok d => (d, Ok tt) | Err e => (0, Err e) | Panic => (0, Panic) end /\
+  fold_left (fun d x => fst (dur_from d x)) (ss ++ [s]) d0 = fst (dur_from d0 s).
+Proof. exact (fun d0 ss s => conj (dur_from_spec d0 s) (dur_from_history d0 ss s)). Qed.
+Theorem C20_from_noreset_refuted :
+  (exists d0 s, valid_rel_time s = true /\ fst (dur_from_gen false d0 s) <> fst (dur_from d0 s)) /\
+  (exists v0, fst (time_from_gen false v0 []) <> fst (time_from v0 [])).
+Proof. exact from_noreset_refuted. Qed.
 
 (* non-vacuity: "991231235959948-" is valid, is not in the excluded class and denotes
    2100-01-01T11:59:59.9Z at -48 quarter hours; 875043 h 34 min 29 s is a period in range *)
